@@ -627,7 +627,7 @@ fn main() {
     let mut nt: Vec<u64> = st.nontrivial.iter().cloned().collect();
     nt.sort();
     let json = format!(
-        "{{\"scenario\":{},\"workers\":{},\"seed\":{},\"execs\":{},\"planned\":{},\"stalls_hit\":{},\"clamped\":{},\"events\":{},\"sigs\":[{}],\"nontrivial_sigs\":[{}],\"hits\":{{{}}},\"stalled\":{{{}}},\"violations\":[{}],\"inconclusive\":{},\"samples\":[{}],\"residency_checks\":{},\"stop_code\":{},\"wall_s\":{:.3}}}",
+        "{{\"scenario\":{},\"workers\":{},\"seed\":{},\"execs\":{},\"planned\":{},\"stalls_hit\":{},\"clamped\":{},\"events\":{},\"sigs\":[{}],\"nontrivial_sigs\":[{}],\"hits\":{{{}}},\"stalled\":{{{}}},\"violations\":[{}],\"inconclusive\":{},\"samples\":[{}],\"residency_checks\":{},\"timer_unlink_checks\":{},\"reused_blocks\":{},\"stop_code\":{},\"wall_s\":{:.3}}}",
         jstr(def.name),
         a.workers,
         a.seed,
@@ -644,6 +644,8 @@ fn main() {
         st.inconclusive,
         st.samples.join(","),
         hook::RESIDENCY_CHECKS.load(Relaxed),
+        hook::UNLINK_CHECKS.load(Relaxed),
+        reuse::REUSED.load(Relaxed),
         stop_code,
         st.wall.elapsed().as_secs_f64()
     );
